@@ -79,6 +79,30 @@ def run(ctx):
         stl = cqops([coq_qop(s) for s in S])
         add('reduce_number_of_terms', '(stabilizers_admissible %s %s && agrees_on_sector %s %s %s && single_letter_on %s %s)' % (coq_qop(H), stl, coq_qop(H), coq_qop(red), stl, cNl(pos), coq_qop(red)), rp, key=repr(rp))
         add('taper_off_qubits', '(dict_eqb pfactor pfeqb %s (taper_model %s %s) && Nat.leb (N.to_nat (qop_width %s)) %d)' % (coq_qop(tap), cNl(sorted(rem)), coq_qop(red), coq_qop(tap), n - k), rp, key=('t', repr(rp)))
+        # manual fixed positions (any qubit in the support of each stabilizer; inadmissible choices raise StabilizerError
+        # by contract and are skipped) and maintain_length=True: the same sector statement must hold
+        for attempt in range(2):
+            man = [rng.choice([q for q, _ in s_]) for s_ in stabs]
+            if len(set(man)) != len(man): continue
+            try:
+                red_m, pos_m = qt.reduce_number_of_terms(H, S, manual_input=True, fixed_positions=list(man), output_fixed_positions=True)
+                tap_m, rem_m = qt.taper_off_qubits(H, S, manual_input=True, fixed_positions=list(man), output_tapered_positions=True)
+            except qt.StabilizerError:
+                ctx.stat('taper_manual_positions', 'rejected_by_contract'); continue
+            except Exception as e:
+                ctx.violation('C16 tapering (manual positions) raised %s: %s' % (type(e).__name__, e), dict(rp, fixed_positions=man)); continue
+            if not exact_terms_ok(red_m.terms, lo=30) or not exact_terms_ok(tap_m.terms, lo=30): continue
+            rpm = dict(rp, manual_fixed_positions=man)
+            add('taper_manual_positions', '(agrees_on_sector %s %s %s && single_letter_on %s %s && dict_eqb pfactor pfeqb %s (taper_model %s %s))' %
+                (coq_qop(H), coq_qop(red_m), stl, cNl(pos_m), coq_qop(red_m), coq_qop(tap_m), cNl(sorted(rem_m)), coq_qop(red_m)), rpm, key=('m', repr(rpm)))
+            if sorted(pos_m) != sorted(man):
+                ctx.violation('C16 reduce_number_of_terms ignored the manual fixed positions', rpm)
+        try:
+            red_l = qt.reduce_number_of_terms(H, S, maintain_length=True)
+            if exact_terms_ok(red_l.terms, lo=30):
+                add('reduce_maintain_length', '(agrees_on_sector %s %s %s)' % (coq_qop(H), coq_qop(red_l), stl), dict(rp, maintain_length=True), key=('l', repr(rp)))
+        except Exception as e:
+            ctx.violation('C16 reduce_number_of_terms(maintain_length=True) raised %s: %s' % (type(e).__name__, e), rp)
         # spectral claim, numerically: spectrum of the tapered operator = spectrum of H on the joint +1 eigenspace
         Hm = of.get_sparse_operator(H, n).toarray(); P = np.eye(2 ** n, dtype=complex)
         for s in S: P = P @ (np.eye(2 ** n) + of.get_sparse_operator(s, n).toarray()) / 2
